@@ -249,6 +249,11 @@ func runC16(c *Ctx) {
 	ruleForwardAll(c, p, "C16.forward-all")
 	ruleRowCopies(c, p, "C16.row-copy")
 	ruleAutoKeepsCompatible(c, p, "C16.auto-keeps")
+	ruleResetKeepsParameters(c, p, "C16.reset-keeps")
+	ruleReadFullSized(c, p, "C16.readfull-sized")
+	if rr := resolveDo(c, p); rr != nil {
+		ruleInputStream(c, p, rr, "C16")
+	}
 	ruleResetBefore(c, p, "C16.before")
 	ruleDict(c, p, "C16.dict")
 	ruleRebuild(c, p, "C16.rebuild")
@@ -981,6 +986,8 @@ func runC18(c *Ctx) {
 	ruleMapInfer(c, p, "C18.mapinfer")
 	ruleInferCache(c, p, "C18.infer-cache")
 	ruleInferNoSharedState(c, p, "C18.shared-state")
+	ruleEchoedTypeValidated(c, p, "C18.echo")
+	ruleAutoRecordsType(c, p, "C18.auto-records")
 	ruleAdopt(c, p, "C18.adopt")
 	ruleInferTables(c, p, "C18")
 	c.R.Assumptions = append(c.R.Assumptions,
